@@ -168,6 +168,29 @@ def session_script(r, conformant, force_lower=False, burst=False):
     return script, events, "+".join(kinds)
 
 
+def long_session_script(r, conformant, n_frames):
+    """one instrument whose single session has more than a thousand frames (a day's backlog sent in one transfer)"""
+    from harness.props import C03
+    script, events = [], []
+
+    def add(d):
+        script.append(("send", d))
+        events.append(("d", d))
+    add(gens.ENQ)
+    seq = 1
+    for k in range(n_frames):
+        if conformant:
+            text = C03.json_conformant_text(r) if k == 0 else C03.headerless_conformant_text(r)
+        else:
+            text = None if k else b"H|\\^&|||long^1|||||||P|1|20240101120000"
+        fr = gens.message_frames(r, seq=seq, text=text, parts=1)[0][0]
+        add(fr)
+        seq = (seq + 1) % 8
+    add(gens.EOT)
+    events.append(("L",))
+    return script, events, "long(%d)" % n_frames
+
+
 def expected_files(fmt, all_events, ctx):
     """model: per connection the receiver alone (C04), its deliveries rendered (C03/C11) and UTF-8 encoded (write_message)"""
     mfmt = fmt if fmt is not None else "@default"
@@ -344,7 +367,7 @@ def one_run(r, fmt, ctx, stream, burst=False, _retry=0):
     shutil.rmtree(tmp, ignore_errors=True)
 
 
-def inprocess_run(r, fmt, stream, burst, n_clients=None, timeouts=False):
+def inprocess_run(r, fmt, stream, burst, n_clients=None, timeouts=False, raw_store=None, scripts=None):
     """server.main() in-process (harness/servermain.py): its queue, consumer task, dispatch closure, protocol factory and
     to_thread archive tasks run for real on asyncio's loop with a virtual clock; connections are played against the
     factory at scripted instants.  burst: all final EOTs are delivered at the same instant (one loop iteration)."""
@@ -354,7 +377,22 @@ def inprocess_run(r, fmt, stream, burst, n_clients=None, timeouts=False):
     os.makedirs(outdir)
     n = n_clients or r.choice([2, 3, 5, 8])
     conformant = fmt in ("json", None)
-    scripts = [session_script(r, conformant, force_lower=False, burst=False) for _ in range(n)]
+    if scripts is None:
+        scripts = [session_script(r, conformant, force_lower=False, burst=False) for _ in range(n)]
+    n = len(scripts)
+    store = None
+    if raw_store:
+        # the optional raw copy of the receiver (./astm_messages in the working directory) cannot be written: a plain file
+        # of that name.  The completed session is archived all the same (every connection ends after its first EOT here)
+        from harness import impl
+        store = os.path.join(impl.private_cwd(), "astm_messages")
+        with open(store, "wb") as fh:
+            fh.write(b"not a folder")
+        cut = []
+        for script, events, kinds in scripts:
+            k_ = next((i for i, ev in enumerate(events) if ev[0] == "d" and ev[1][:1] == b"\x04"), len(events) - 1)
+            cut.append((script, events[:k_ + 1], kinds))
+        scripts = cut
     scenario = []
     all_events = []
     t_burst = 0
@@ -390,19 +428,25 @@ def inprocess_run(r, fmt, stream, burst, n_clients=None, timeouts=False):
         scenario += plan
     scenario.sort(key=lambda x: x[0])
     args = ["-o", outdir] + (["-m", fmt] if fmt is not None else [])
-    res = servermain.run_server_main(args, scenario, settle=2)
+    try:
+        res = servermain.run_server_main(args, scenario, settle=2)
+    finally:
+        if store:
+            os.remove(store)
     files = []
     for fn in sorted(os.listdir(outdir)):
         with open(os.path.join(outdir, fn), "rb") as fh:
             files.append(fh.read())
     problems = []
     exp_decl = declarative_files(fmt, all_events, problems)
-    case = {"format": fmt, "in_process": True, "burst": burst, "scenario": [[t, c, a[0], a[1].hex() if len(a) > 1 else ""] for t, c, a in scenario],
+    case = {"format": fmt, "in_process": True, "burst": burst, "raw_copy_store": raw_store, "scenario": [[t, c, a[0], a[1].hex() if len(a) > 1 else ""] for t, c, a in scenario],
             "kinds": [sc[2] for sc in scripts], "files": len(files)}
     stream.case(case, nontrivial=n >= 2)
     stream.count("format=%s" % fmt)
     if burst:
         stream.count("same-instant-eot")
+    if raw_store:
+        stream.count("raw copy cannot be written")
     if res["exit"] not in (None, 0):
         stream.fail(case, "server.main() exited with %r" % (res["exit"],), "in-process/exit")
     if problems:
@@ -439,6 +483,13 @@ def run(ctx):
     # many instruments finishing in the same turn of the event loop
     for i in range(4 if ctx.thorough else 1):
         inprocess_run(r, r.choice(["astm", "json"]), ip, burst=True, n_clients=r.choice([90, 130]))
+    for i in range(40 if ctx.thorough else 6):
+        inprocess_run(r, r.choice(["astm", "lis2a", "json"]), ip, burst=False, raw_store="plain-file")
+    # one session of more than a thousand frames next to ordinary ones
+    for fmt in (["astm", "json", "lis2a"] if ctx.thorough else [r.choice(["astm", "json", "lis2a"])]):
+        conf = fmt == "json"
+        inprocess_run(r, fmt, ip, burst=False, scripts=[long_session_script(r, conf, r.choice([1025, 1100, 2060])),
+                                                         session_script(r, conf)])
     # a server that has archived more sessions than it may hold descriptors open (soft limit lowered for the run)
     import resource
     soft, hard = resource.getrlimit(resource.RLIMIT_NOFILE)
